@@ -171,8 +171,10 @@ theorem serializeVariant_ok {fs : BL} {types offs cur : List Int} {idx : Nat} {r
     · rename_i co hco
       split at h
       · simp [fail] at h
-      · cases h
-        exact ⟨m, co, hget, hco, by omega, rfl, rfl, rfl⟩
+      · split at h
+        · simp [fail] at h
+        · cases h
+          exact ⟨m, co, hget, hco, by omega, rfl, rfl, rfl⟩
 
 /-- one row of a union: bookkeeping + the variant's child -/
 theorem union_row_takeRest {p fs types offs cur} {i : Nat} {pc : B → R B} {b' : B}
